@@ -36,12 +36,15 @@ type c13T struct {
 	failed bool
 }
 
-func (t *c13T) Logf(f string, a ...interface{})   { t.logs = append(t.logs, fmt.Sprintf(f, a...)) }
-func (t *c13T) Errorf(f string, a ...interface{}) { t.logs = append(t.logs, fmt.Sprintf(f, a...)); t.failed = true }
-func (t *c13T) Fail()                             { t.failed = true }
-func (t *c13T) Failed() bool                      { return t.failed }
-func (t *c13T) Name() string                      { return "c13" }
-func (t *c13T) FailNow()                          { t.failed = true }
+func (t *c13T) Logf(f string, a ...interface{}) { t.logs = append(t.logs, fmt.Sprintf(f, a...)) }
+func (t *c13T) Errorf(f string, a ...interface{}) {
+	t.logs = append(t.logs, fmt.Sprintf(f, a...))
+	t.failed = true
+}
+func (t *c13T) Fail()        { t.failed = true }
+func (t *c13T) Failed() bool { return t.failed }
+func (t *c13T) Name() string { return "c13" }
+func (t *c13T) FailNow()     { t.failed = true }
 
 type plainWriter struct{ buf bytes.Buffer }
 
